@@ -17,12 +17,13 @@ META = {
             "to the slice it carries; buildRangeHeader answers 206 exactly when (200 reply of known consistent length, "
             "If-Range satisfied on hits, some spec satisfiable, canonical list ascending and disjoint, range_offset_limit "
             "satisfied on misses) and then for every valid Range header the parts are, in order, exactly the satisfiable "
-            "requested ranges (C28's canon_of); 416 is never produced. The fallback statement `otherwise the complete "
-            "representation with 200` is PROVED for replies whose first body buffer is empty (memory hits, misses) or whose "
-            "lowest requested offset is 0, and REFUTED in general: on a disk hit the first buffer is advanced by "
-            "lowestOffset(0) before buildRangeHeader decides to ignore the Range (complex set, failed If-Range), so the 200 "
-            "body is object[R..bs) ++ object[bs-R..) -- known finding C15-fallback-200-skips-prefix, witness replayed against "
-            "the running proxy. Tie: header names, application name and HTTP_REQBUF_SZ regenerated from the code; the "
+            "requested ranges (C28's canon_of); 416 is never produced; and `otherwise the complete representation with 200`: "
+            "EVERY 200 the model produces (no/invalid Range, complex set, failed If-Range, nothing satisfiable, "
+            "range_offset_limit; memory hit, disk hit or miss; every first buffer and chunking) carries exactly the "
+            "representation with its length. (Until /repo 414e85a this was refuted for disk hits -- the first body buffer "
+            "was advanced by lowestOffset(0) before buildRangeHeader ignored the Range; the former witness and reproducers "
+            "are now regression scenarios replayed against "
+            "the running proxy.) Tie: header names, application name and HTTP_REQBUF_SZ regenerated from the code; the "
             "HttpHdrRange helpers (lowestOffset, firstOffset, offsetLimitExceeded, canonize, isComplex) and the Content-Range "
             "packer compiled from the working tree under UBSan (harness/h_rangereply.cc) are diffed against the extracted "
             "model on generated headers; extracted "
@@ -36,8 +37,7 @@ META = {
             "tags only (no HTTP-date validators); HEAD and non-200 origin replies are outside the model. Trusted: Coq "
             "kernel, extraction, gen/gen_rangereply.cc, vlib/lab.py stubs, C28's model of the parser.",
     "technique": "Coq proof (loop invariant over the spec list for packRange with explicit fuel, induction over the "
-                 "environment's chunk list, decimal printer round trip, composition with C28's canon_of; vm_compute witness "
-                 "for the refutation) + end-to-end differential correspondence of the extracted model against the running "
+                 "environment's chunk list, decimal printer round trip, composition with C28's canon_of) + end-to-end differential correspondence of the extracted model against the running "
                  "squid + independent multipart/byteranges-parsing oracle",
 }
 
@@ -45,7 +45,6 @@ LIMIT = 5000
 MODES = ["hit", "hit", "hit", "dhit", "dhit", "mnone", "mnone", "mzero", "mlim"]
 PREFIX = {"hit": "h", "dhit": "d", "mnone": "n", "mzero": "z", "mlim": "l"}
 SIZES = [0, 1, 2, 10, 100, 100, 1000, 2500, 4095, 4096, 4097, 8192, 10000, 20000, 40000]
-SMALL_DISK = 2500      # a disk object of at most this size arrives whole with the headers (first store read)
 CT = "text/x-verif"
 
 
@@ -115,13 +114,6 @@ def is_fallback_prone(text, clen):
             return True
         end = b + 1
     return False
-
-
-def lowest_first(text):
-    specs = parse_range_header(text)
-    if not specs or any(sp[0] == "suffix" for sp in specs):
-        return 0
-    return min(sp[1] for sp in specs)
 
 
 # ------------------------------------------------------------------ scenarios
@@ -207,12 +199,6 @@ def gen_scenarios(rng, n):
             s["if_range"] = rng.choice(['"v1"', '"v1"', '"v2"', 'W/"v1"', "xyz", '"v1'])
         elif r < 0.35:
             s["etag"] = '"v1"'
-        if mode == "dhit":
-            failing_if_range = "if_range" in s and not (s["if_range"] == s.get("etag") and not s["if_range"].startswith("W/"))
-            if (is_fallback_prone(text, size) or failing_if_range) and lowest_first(text) > 0 and size > SMALL_DISK:
-                # the known defect's output depends on how many body bytes the first disk read returns; keep those
-                # cases to objects that arrive whole with the headers so that the model can predict the bytes
-                s["size"] = size = rng.choice([100, 1000, 2500, rng.randrange(1, SMALL_DISK + 1)])
         if mode.startswith("m") and rng.random() < 0.4:
             s["splits"] = [rng.choice([1, 50, 137, 1000, 4096, 5000]) for _ in range(rng.randrange(1, 5))]
         specs = parse_range_header(text) or []
@@ -431,14 +417,6 @@ def oracle(s, obs):
         return ("oracle:content-length-mismatch", "Content-Length %s but %d body bytes" % (cl, len(body)))
     if status == 200:
         if body != obj:
-            r0 = lowest_first(s["range"]) if s.get("range") else 0
-            if r0 > 0 and len(body) == clen and body[:clen - r0] == obj[r0:]:
-                return ("oracle:200-body-shifted-by-lowest-offset",
-                        "the 200 body has the declared length but starts at byte %d of the representation (%s)" % (r0, s["range"]))
-            if r0 > 0 and len(body) == clen and body[:16] == obj[r0:r0 + 16] and body[-16:] == obj[-16:]:
-                return ("oracle:200-body-shifted-by-lowest-offset",
-                        "the 200 body has the declared length but starts at byte %d of the representation and repeats a later "
-                        "stretch (%s)" % (r0, s["range"]))
             return ("oracle:200-body-differs", "the 200 body is not the representation (%d vs %d bytes)" % (len(body), clen))
         return None
     if status == 416:
